@@ -4,8 +4,8 @@ from ._generic import make, STD_TRUST
 globals().update(
     make(
         pid="C12",
-        props=["JaqalProofs/Props/C12.lean", "JaqalProofs/Props/C12Run.lean"],
-        targets=["JaqalProofs.Props.C12", "JaqalProofs.Props.C12Run"],
+        props=["JaqalProofs/Props/C12.lean", "JaqalProofs/Props/C12Run.lean", "JaqalProofs/Props/C03End.lean"],
+        targets=["JaqalProofs.Props.C12", "JaqalProofs.Props.C12Run", "JaqalProofs.Props.C03End"],
         diffs=[("harness.agents.walk_diff", 1500, 10000), ("harness.agents.c12_entry", 2500, 25000)],
         trusted=[
             STD_TRUST,
